@@ -28,9 +28,11 @@ func (a *QueryAuthorizer) AuthorizeQuery(u User, q *influxql.Query, database str
 	if n := a.Client.UserCount(); n == 0 {
 		// Ensure there is at least one statement.
 		if len(q.Statements) > 0 {
-			// First statement in the query must create a user with admin privilege.
+			// The query must consist of exactly one statement, which creates a
+			// user with admin privilege: further statements would otherwise run
+			// without any authentication.
 			cu, ok := q.Statements[0].(*influxql.CreateUserStatement)
-			if ok && cu.Admin {
+			if ok && cu.Admin && len(q.Statements) == 1 {
 				return query.OpenAuthorizer, nil
 			}
 		}
